@@ -1,6 +1,6 @@
 // One scenario = one virtual disk + a sequence of user-level actions and invocations of the real
 // build() / clean() under a scheduling controller.  Everything observable is appended to the event list.
-use std::collections::{BTreeMap, BTreeSet, VecDeque};
+use std::collections::{BTreeSet, VecDeque};
 use std::sync::{Arc, Mutex};
 use serde_json::{json, Value};
 
